@@ -110,12 +110,14 @@ func (c *RepoCacheBug) ResolveComment(prefix string) (*BugCache, entity.Combined
 
 // Query return the id of all Bug matching the given Query
 func (c *RepoCacheBug) Query(q *query.Query) ([]entity.Id, error) {
-	c.mu.RLock()
-	defer c.mu.RUnlock()
-
 	if q == nil {
+		// AllIds takes the read lock itself: acquiring it a second time here would deadlock as
+		// soon as a writer is waiting between the two acquisitions.
 		return c.AllIds(), nil
 	}
+
+	c.mu.RLock()
+	defer c.mu.RUnlock()
 
 	matcher := compileMatcher(q.Filters)
 
